@@ -23,7 +23,7 @@ ASSUMPTIONS = [
     "a rule object is only re-inserted while it is detached (inserting one object into two lists is not an edit the statement describes)",
     "restart compares rule kinds of rules whose own serialisation is non-empty (default preferences drop empty rules)",
 ]
-PROBES = ["ordered_add_with_comment_first", "charset_reset_through_encoding", "rule_moved_between_containers", "rejected_add", "sheet_text_replaced", "restart", "nested_insert"]
+PROBES = ["ordered_add_with_comment_first", "charset_reset_through_encoding", "rule_moved_between_containers", "rejected_add", "sheet_text_replaced", "restart", "nested_insert", "property_object_from_other_block"]
 
 TOP_ONLY = ("CHARSET_RULE", "IMPORT_RULE", "NAMESPACE_RULE")
 BODY = ("STYLE_RULE", "MEDIA_RULE", "PAGE_RULE", "FONT_FACE_RULE")
@@ -294,6 +294,25 @@ class World:
                 out = "set"
             else:
                 out = "rejected:" + lib.ename(v)
+        elif k in ("decl_text", "decl_setprop"):
+            s = self.sheets[op["s"] % len(self.sheets)]
+            styles = [r.style for r, _, _ in flat(s) if getattr(r, "style", None) is not None]
+            if not styles:
+                return "nostyle"
+            st = styles[op["i"] % len(styles)]
+            if k == "decl_text":
+                kk, v = lib.call(setattr, st, "cssText", op["text"])
+            else:
+                # a Property object that belonged to another (discarded) declaration block
+                kd, donor = lib.call(lambda: cu.css.CSSStyleDeclaration(cssText=op["text"]))
+                props = donor.getProperties(all=True) if kd == "ok" else []
+                if not props:
+                    return "noprop"
+                kk, v = lib.call(st.setProperty, props[op["j"] % len(props)])
+                self.stats["probe:property_object_from_other_block"] += 1
+            if kk == "ok":
+                self.stats["accepted"] += 1
+            out = "set" if kk == "ok" else "rejected:" + lib.ename(v)
         elif k == "encoding":
             s = self.sheets[op["s"] % len(self.sheets)]
             had = len(s.cssRules) and s.cssRules[0].typeString == "CHARSET_RULE"
@@ -363,7 +382,9 @@ def gen_op(r, w, i):
     if i >= cfg["n_ops"]:
         return None
     bad = cfg["bad_rate"]
-    k = r.choice(["insert", "insert", "insert", "add", "add", "delete", "delete", "sheet_text", "rule_text", "encoding", "ns_set", "ns_del", "make", "move", "move", "restart"])
+    k = r.choice(["insert", "insert", "insert", "add", "add", "delete", "delete", "sheet_text", "rule_text", "encoding", "ns_set", "ns_del", "make", "move", "move", "restart", "decl"])
+    if k == "decl":
+        return {"op": r.choice(["decl_text", "decl_setprop"]), "s": r.randrange(0, 2), "i": r.randrange(0, 12), "j": r.randrange(0, 4), "text": G.decl_block(r, n=r.choice([1, 2, 3]), bad=bad)}
     if k == "make":
         kind = r.choice(["style", "media", "page", "import", "namespace", "charset", "fontface", "comment", "unknown", "variables"])
         return {"op": "make", "kind": kind, "text": G.import_rule(r, hrefs=("a.css",)) if kind == "import" else G.rule(r, kind)}
